@@ -42,7 +42,7 @@ from . import c13_realize as rz
 SPEC = 'spec/web'
 PID = 'C13'
 BUFSIZE = 4096          # a read event never carries more than the transport's buffer size
-ALL_DEFECTS = ['linecrlf', 'lastchunk', 'nobody', 'nobody304', 'untilclose', 'emptyhdr']
+ALL_DEFECTS = ['linecrlf', 'lastchunk', 'nobody', 'nobody304', 'untilclose', 'emptyhdr', 'tecase']
 
 F_STATUS, F_METHOD, F_PATH, F_QUERY, F_VERSION, F_HEADERS, F_BODY, F_RESP = 1, 2, 4, 8, 16, 32, 64, 128
 
@@ -474,6 +474,11 @@ def probe_defects():
     p.execute(part, len(part))
     if not p.is_headers_complete():
         found.append('emptyhdr')
+    data, lay = rz.compose(b'POST / HTTP/1.1', [b'Host: h', b'Transfer-Encoding: Chunked'], ('chunked', [(b'abc', b'')], []))
+    lay.update(status=0, ver=11, ka=True)
+    lines, _ = run_server([data], [lay], [[rz.hdr_end(lay)]])
+    if any(ln['k'] == 'emit' and ln['pos'] < len(data) for ln in lines):
+        found.append('tecase')
     return found
 
 
@@ -712,14 +717,17 @@ def _run(ctx, rnd, quick, scratch):
     jobs = {
         'mc': lambda: tlc.model_check(SPEC, 'HttpFraming', 'MC_HttpFraming.cfg' if quick else 'MC_HttpFraming_thorough.cfg',
                                       workers=4, jvm_opts=('-Xmx3g',)),
-        'pinned_server': lambda: tlc.run_tlc(SPEC, 'HttpFraming', 'MC_HttpFraming_pinned_server.cfg', workers=2, jvm_opts=('-Xmx2g',)),
+        # (quick: the defect the unchanged tree still has; thorough: every single defect and both combined variants)
+        ('def_tecase_server' if quick else 'pinned_server'): lambda: tlc.run_tlc(
+            SPEC, 'HttpFraming', 'MC_HttpFraming_def_tecase_server.cfg' if quick else 'MC_HttpFraming_pinned_server.cfg',
+            workers=2, jvm_opts=('-Xmx2g',)),
         'pinned_client': lambda: tlc.run_tlc(SPEC, 'HttpFraming', 'MC_HttpFraming_pinned_client.cfg', workers=2, jvm_opts=('-Xmx2g',)),
         'hist': lambda: dump_histories(hist_cfg(tier, defects, scratch)),
     }
     if not quick:
         jobs['mc_cov'] = lambda: tlc.model_check(SPEC, 'HttpFraming', 'MC_HttpFraming.cfg', workers=2, coverage=True,
                                                  jvm_opts=('-Xmx2g',))
-        for d, side in (('linecrlf', 'server'), ('lastchunk', 'server'), ('linecrlf', 'client'), ('lastchunk', 'client'),
+        for d, side in (('tecase', 'server'), ('linecrlf', 'server'), ('lastchunk', 'server'), ('linecrlf', 'client'), ('lastchunk', 'client'),
                         ('nobody', 'client'), ('nobody304', 'client'), ('untilclose', 'client'), ('emptyhdr', 'client')):
             jobs['def_%s_%s' % (d, side)] = (lambda d=d, side=side: tlc.run_tlc(
                 SPEC, 'HttpFraming', 'MC_HttpFraming_def_%s_%s.cfg' % (d, side), workers=2, jvm_opts=('-Xmx2g',)))
